@@ -72,3 +72,8 @@ clean:
 $(B)/bin/otool: oracle/otool.cpp $(B)/oracle/llvm_mc.o $(B)/oracle/opc.o
 	@mkdir -p $(B)/bin
 	$(CXX) $(STD) -O1 -Ioracle oracle/otool.cpp $(B)/oracle/llvm_mc.o $(B)/oracle/opc.o $(ORACLE_LD) -o $@
+
+# ISA database dumps (regenerated when the database or its loader changes)
+$(B)/gen/x86_forms.txt: gen/dump_x86_forms.js $(REPO)/db/isa_x86.json $(REPO)/db/x86.js $(REPO)/db/base.js
+	@mkdir -p $(B)/gen
+	node gen/dump_x86_forms.js $(REPO) $@ > /dev/null
